@@ -87,6 +87,7 @@ MUT={
 				lastData = data
 			}
 			return negotiateClient(ctx, identity, password, session, lastData, mechanisms...)'''))),
+ 'c03-m16-failure-without-condition-is-not-a-failure': ('C03', lambda: subprocess.run(['git','apply','/verif/seeded/C03-7/patch.diff'],cwd=R,check=True)),
  'c03-h1-harmless-encode-to-string': ('C03', lambda: sub('sasl.go','''		var encodedResp []byte
 		if len(resp) == 0 {
 			encodedResp = []byte{'='}
@@ -192,6 +193,7 @@ MUT={
  'c12-m15-attributes-matched-by-local-name': ('C12', lambda: subprocess.run(['git','apply','/verif/seeded/C12-5/patch.diff'],cwd=R,check=True)),
  'c12-m16-random-resource-drawn-per-feature': ('C12', lambda: subprocess.run(['git','apply','/verif/seeded/C12-6/patch.diff'],cwd=R,check=True)),
  'c12-m17-xml-prefixed-id-accepted': ('C12', lambda: sub('stream/stream.go','''		case xml.Name{Space: "", Local: "id"}:''','''		case xml.Name{Space: "", Local: "id"}, xml.Name{Space: ns.XML, Local: "id"}:''')),
+ 'c12-m18-either-framing-open-accepted': ('C12', lambda: subprocess.run(['git','apply','/verif/seeded/C12-8/patch.diff'],cwd=R,check=True)),
  'c12-h1-harmless-double-quotes': ('C12', lambda: (sub('internal/stream/stream.go','''b.WriteString(" " + attr.name + "='")''','''b.WriteString(" " + attr.name + "=\\"")'''), sub('internal/stream/stream.go','''		_, err = b.WriteString("'")
 		if err != nil {
 			return err
